@@ -16,7 +16,7 @@
 (* property being checked.  Several traces are concatenated; a "reset"     *)
 (* line starts a new one.                                                  *)
 (***************************************************************************)
-EXTENDS Hub, Json, IOUtils
+EXTENDS Props, Json, IOUtils
 
 Trace == ndJsonDeserialize(IOEnv.VERIF_TRACE)
 
@@ -98,43 +98,17 @@ ConfChecks(pre, a, res, post) ==
           \cup (IF e.out = "ok" /\ res.out = "ok" THEN StateDiffs(e.s, post) ELSE {})
           \cup (IF a.k = "Send" /\ res.out = "ok" /\ e.out = "ok" /\ e.id # res.id THEN {<<"conf:id", "">>} ELSE {})
 
-\* ---------------------------------------------------------------- property predicates
-\* C05  block processing is total: Begin / End never panic, hang or kill the node
-C05Checks(a, res) == IF a.k \in {"Begin", "End"} /\ res.out # "ok" THEN {<<"C05:BlockOpsTotal", "">>} ELSE {}
-
+\* ---------------------------------------------------------------- property predicates needing the diff
 \* C11  a failed message changes nothing (projected state; the raw digest is compared by the runner)
 FailedIsNoop(pre, a, res, post) ==
     IF a.k \in {"Begin", "End"} \/ res.out # "err" THEN {}
     ELSE IF StateDiffs(pre, post) # {} THEN {<<"C11:FailedIsNoop", "">>} ELSE {}
 
-\* C02  quorum at apply: every record newly accepted by this End step has >= 66% of the bonded power behind it,
-\*      from distinct validators
-NewlyAccepted(pre, post, c) ==
-    {r \in post.ch[c].votes : r.acc /\ ~\E q \in pre.ch[c].votes : q.n = r.n /\ q.cid = r.cid /\ q.acc}
-DistinctVoters(r) == Cardinality(RangeOf(r.voters)) = Len(r.voters)
-C02Checks(pre, a, post) ==
-    IF a.k # "End" THEN {}
-    ELSE UNION {
-           (IF 100 * FoldSet(LAMBDA v, acc : acc + PowerOf(post, v), 0, RangeOf(r.voters)) < 66 * post.tot
-            THEN {<<"C02:QuorumAtApply", "">>} ELSE {})
-      \cup (IF ~DistinctVoters(r) THEN {<<"C02:NoDoubleCount", "">>} ELSE {})
-         : r \in UNION {NewlyAccepted(pre, post, c) : c \in DOMAIN post.ch}}
-
-\* C03  consecutive nonces, at most one accepted record per nonce, state changes only with application
-C03Checks(pre, a, post) ==
-    UNION {
-        (IF post.ch[c].lon < pre.ch[c].lon THEN {<<"C03:NonceMonotone", "">>} ELSE {})
-   \cup (IF post.ch[c].lon # pre.ch[c].lon + Cardinality(NewlyAccepted(pre, post, c)) THEN {<<"C03:OnePerNonce", "">>} ELSE {})
-   \cup (IF {r.n : r \in NewlyAccepted(pre, post, c)} # (pre.ch[c].lon + 1)..post.ch[c].lon THEN {<<"C03:Consecutive", "">>} ELSE {})
-   \cup (IF \E r1, r2 \in post.ch[c].votes : r1.acc /\ r2.acc /\ r1.n = r2.n /\ r1.cid # r2.cid THEN {<<"C03:ConflictBothAccepted", "">>} ELSE {})
-   \cup (IF a.k # "End" /\ post.ch[c].lon # pre.ch[c].lon THEN {<<"C03:AppliedOutsideEndBlock", "">>} ELSE {})
-      : c \in DOMAIN post.ch}
-
-PropChecks(pre, a, res, post) ==
-    C05Checks(a, res) \cup FailedIsNoop(pre, a, res, post) \cup C02Checks(pre, a, post) \cup C03Checks(pre, a, post)
+PropChecks(g, pre, a, res, post) ==
+    FailedIsNoop(pre, a, res, post) \cup (IF Modelled(a) THEN StepChecks(g, pre, a, res, post) ELSE C05Checks(a, res))
 
 \* ---------------------------------------------------------------- the trace automaton
-InitHist == [cfg |-> <<>>, pre |-> <<>>, n |-> 0, id |-> "", viol |-> {}, cov |-> <<>>]
+InitHist == [cfg |-> <<>>, pre |-> <<>>, g |-> <<>>, n |-> 0, id |-> "", viol |-> {}, cov |-> <<>>]
 
 \* coverage counters: how often each kind of step / outcome was seen (anti-vacuity evidence)
 Bump(cov, key) == Put(cov, key, Get(cov, key, 0) + 1)
@@ -145,7 +119,8 @@ Init == l = 0 /\ fails = {} /\ hist = InitHist
 ConsumeReset ==
     /\ l < Len(Trace) /\ Trace[l + 1].k = "reset"
     /\ LET cfg == CfgOf(Trace[l + 1])
-       IN hist' = [hist EXCEPT !.cfg = cfg, !.pre = StateOf(Trace[l + 1].post, cfg), !.n = hist.n + 1, !.id = Trace[l + 1].id]
+           st0 == StateOf(Trace[l + 1].post, cfg)
+       IN hist' = [hist EXCEPT !.cfg = cfg, !.pre = st0, !.g = GhostInit(st0), !.n = hist.n + 1, !.id = Trace[l + 1].id]
     /\ fails' = {}
     /\ l' = l + 1
 
@@ -157,8 +132,9 @@ ConsumeStep ==
             /\ hist' = [hist EXCEPT !.viol = @ \cup {<<hist.id, line.i, f[1], f[2]>> : f \in fails'},
                                     !.cov = Bump(@, CovKey(line.act, line.res))]
        ELSE LET post == StateOf(line.post, hist.cfg)
-            IN /\ fails' = ConfChecks(hist.pre, line.act, line.res, post) \cup PropChecks(hist.pre, line.act, line.res, post)
+            IN /\ fails' = ConfChecks(hist.pre, line.act, line.res, post) \cup PropChecks(hist.g, hist.pre, line.act, line.res, post)
                /\ hist' = [hist EXCEPT !.pre = post,
+                                       !.g = IF Modelled(line.act) THEN GhostNext(hist.g, hist.pre, line.act, line.res, post) ELSE hist.g,
                                        !.viol = @ \cup {<<hist.id, line.i, f[1], f[2]>> : f \in fails'},
                                        !.cov = Bump(@, CovKey(line.act, line.res))]
     /\ l' = l + 1
